@@ -5,7 +5,7 @@ _RACE = {"race": True, "crash_is_violation": True, "env": {"GORACE": "halt_on_er
 PROP = {
     "level": "exploration",
     "rule": ("harness built with the Go race detector. Unit 1: rapid-generated workloads {fixed-window or concurrency quota with max 1-12} x 2-16 goroutines x 1-12 transactions each "
-             "(half through a Limiter flow, half through a branching Filter/GenerateResponse flow, request then response), released together at a frozen virtual instant, optionally with a "
+             "(a third through a Limiter flow, a third through a branching Filter/GenerateResponse flow, a third to one of four specific URLs h.com/s<k> whose filter node sits below a wildcard node holding three flows; request then response), released together at a frozen virtual instant, optionally with a "
              "metrics reader and a concurrent re-load of the same configuration. Unit 2: 2-8 goroutines doing policy lookups for fresh transaction ids while policies are swapped and the "
              "vacuum's timers are fired. Unit 3: 2-8 goroutines sending transactions through routing.Handler of a real HandlingDataManager while the flows are re-loaded through POST /load_flows (every "
              "transaction must be answered by some version of the flow). Oracles: (a) every race report whose innermost lunar frames (normalised: no line numbers, closure numbers or type arguments) are not a listed known "
